@@ -14,13 +14,15 @@
 // type invariant of the automaton: well formed w.r.t. its own match kind (established by build_with_values,
 // preserved by the serialisation round trip)
 spec fn cw_pma_inv<V>(pma: &CharwiseDoubleArrayAhoCorasick<V>) -> bool { cw_pma_ok(pma, !(pma.match_kind is Standard)) }
-spec fn src_utf8_ok<P: Iterator<Item = u8>>(h: P) -> bool { utf8_ok(iter_items(h)) && iter_items(h).len() < usize::MAX }
+#[verifier::prophetic]
+spec fn src_utf8_ok<P: Iterator<Item = u8>>(h: P) -> bool { iter_lawful(h) && utf8_ok(iter_items(h)) && iter_items(h).len() < usize::MAX }
 
 //@impl src/charwise/iter.rs impl<I> CharWithEndOffsetIterator<I>
 //@fn new
 //@rules R17
 //@ret r
 //@head{
+    requires iter_lawful(inner)
     ensures enum_count(r.inner) == 0, enum_rest(r.inner) == iter_items(inner)
 //@}
 //@endimpl
